@@ -74,8 +74,10 @@ type foreignWrapper struct {
 	n      int
 }
 
-func (w *foreignWrapper) Type(ctx context.Context) (wrapping.WrapperType, error) { return w.inner.Type(ctx) }
-func (w *foreignWrapper) KeyId(ctx context.Context) (string, error)             { return w.inner.KeyId(ctx) }
+func (w *foreignWrapper) Type(ctx context.Context) (wrapping.WrapperType, error) {
+	return w.inner.Type(ctx)
+}
+func (w *foreignWrapper) KeyId(ctx context.Context) (string, error) { return w.inner.KeyId(ctx) }
 func (w *foreignWrapper) SetConfig(ctx context.Context, o ...wrapping.Option) (*wrapping.WrapperConfig, error) {
 	return w.inner.SetConfig(ctx, o...)
 }
